@@ -484,7 +484,7 @@ def rw_for_each_index(text: str) -> str:
   (iter() over a Vec visits index 0, 1, .. in order; the closure body is copied unchanged; refused when it contains return / break / continue)"""
   k = 0
   while True:
-    m = re.search(r'((?:self|this)(?:\s*\.\s*\w+)+)\s*\.\s*iter\(\)\s*\.\s*for_each\(\s*\|\s*(\w+)\s*\|\s*\{', text)
+    m = re.search(r'((?:\w+)(?:\s*\.\s*\w+)+)\s*\.\s*iter\(\)\s*\.\s*for_each\(\s*\|\s*(\w+)\s*\|\s*\{', text)
     if not m: return text
     toks = rsitems.lex(text)
     kb = next(i for i, t in enumerate(toks) if t.end == m.end() and t.text == '{')
@@ -559,6 +559,21 @@ def rw_rev_take_zip_map(text: str) -> str:
          '    while verif_k < verif_n && verif_k < %s.len() && verif_k < %s.len() {\n      let %s = &%s[%s.len() - 1 - verif_k];\n      let %s = &%s[verif_k];\n'
          '      let verif_e: %s = {%s};\n      verif_out.push(verif_e);\n      verif_k += 1;\n    }\n    verif_out') % (m.group(2), ty, a, b, m.group(4), a, a, m.group(5), b, ty, body)
   return text[:m.start()] + new + rest[mm.end():]
+
+
+def rw_extract_match(text: str, scrutinee: str, sig: str, var: str) -> str:
+  """R18: a function that cannot be extracted whole but contains ONE match expression that matters: the function's text is replaced by
+       SIG { match VAR { ARMS } }
+  where ARMS is the text of the arms of `match SCRUTINEE {` (SCRUTINEE a regex) copied unchanged. Everything else of the function is dropped
+  (and named in the unit's notes): the unit decides what the match does with the scrutinee's value, nothing about how that value is produced."""
+  m = re.search(r'match\s+' + scrutinee + r'\s*\{', text)
+  if not m: raise Undecided('R18: no `match %s {`' % scrutinee)
+  if re.search(r'match\s+' + scrutinee + r'\s*\{', text[m.end():]): raise Undecided('R18: more than one such match')
+  toks = rsitems.lex(text)
+  kb = next(i for i, t in enumerate(toks) if t.end == m.end() and t.text == '{')
+  kc = rsitems.match_close(toks, kb)
+  arms = text[toks[kb].end:toks[kc].start]
+  return '%s {\n    match %s {%s}\n  }\n' % (sig, var, arms)
 
 
 def rw_mut_self(text: str) -> str:
@@ -1116,6 +1131,7 @@ def build_unit(name: str, variant: Optional[str] = None, canary: bool = False) -
         elif rule == 'R13r': new = rw_for_range(new)
         elif rule == 'R13f': new = rw_for_each_index(new)
         elif rule == 'R13c': new = rw_rev_take_zip_map(new)
+        elif rule == 'R18': new = rw_extract_match(new, args['scrutinee'], args['sig'], args['var'])
         elif rule == 'R17': new = rw_inline_scope(new)
         elif rule == 'R4n': new = rw_next_if_pred(new, args.get('fns', []), args.get('vars', []))
         elif rule == 'R16': new = rw_thread_heap(new, args['methods'], args.get('name', 'verif_heap'), args.get('ty', 'ListHeap'))
